@@ -608,7 +608,7 @@ inductive Outcome (V : Type)
   | err (e : LoadErr)
   /-- a required field is skipped: "Required fields … are skipped", no loader is produced -/
   | noLoader
-  deriving Repr, Inhabited
+  deriving DecidableEq, Repr, Inhabited
 
 inductive FieldRes (V : Type)
   | arg (v : V) | omitted | missing (key : String) | bad (key : String) | unskippable
